@@ -281,11 +281,11 @@ fn end_to_end(run: &mut Run, quick: bool) {
 // ---------------------------------------------------------------------------------------------
 // the acknowledgement of one secondary racing the fan-out of the same operation to the next one
 
-struct SendFut(std::pin::Pin<Box<dyn std::future::Future<Output = ()>>>);
+pub struct SendFut(pub std::pin::Pin<Box<dyn std::future::Future<Output = ()>>>);
 // the future is built on the driver thread and then polled by exactly one managed thread
 unsafe impl Send for SendFut {}
 
-fn poll_fut(f: &mut SendFut) -> bool {
+pub fn poll_fut(f: &mut SendFut) -> bool {
     let waker = futures::task::noop_waker();
     let mut cx = std::task::Context::from_waker(&waker);
     matches!(f.0.as_mut().poll(&mut cx), std::task::Poll::Pending)
